@@ -1,9 +1,326 @@
-"""Region extents (R14.1/R14.2/R5.5) -- placeholder, filled in with C14."""
+"""Region extents (R14.1/R14.2, shared with C05): for every region kind and every
+body over the full alphabet, the rule that wins at the opener is of the expected
+type family and its leftmost-first match ends exactly at the terminator."""
+import re
+import re._constants as sc
+
+from . import rx
+from .fold import TT
+from .tables import get_tables
+
+STR_SINGLE = TT(('Literal', 'String', 'Single'))
+STR_SYMBOL = TT(('Literal', 'String', 'Symbol'))
+NAME = TT(('Name',))
+LITERAL = TT(('Literal',))
+C_MULTI = TT(('Comment', 'Multiline'))
+C_MULTI_HINT = TT(('Comment', 'Multiline', 'Hint'))
+C_SINGLE = TT(('Comment', 'Single'))
+C_SINGLE_HINT = TT(('Comment', 'Single', 'Hint'))
+
+BLOCK_BODY = r'([^*]|\*+[^*/])*\*+/'
+
+
+def region_table(tier):
+    R = []
+    R.append(dict(id='single-quoted string', spec=r"'([^'\\]|'')*'", bad_right=r"'", exact=STR_SINGLE))
+    R.append(dict(id='double-quoted name', spec=r'"([^"\\]|"")*"', bad_right=r'"', exact=STR_SYMBOL))
+    R.append(dict(id='backtick name', spec=r'`([^`]|``)*`', bad_right=r'`', exact=NAME))
+    R.append(dict(id='block comment', spec=r'/\*(\*+/|([^*+]|\*+[^*/])' + BLOCK_BODY + ')', exact=C_MULTI))
+    R.append(dict(id='block comment hint', spec=r'/\*\+' + BLOCK_BODY, exact=C_MULTI_HINT))
+    for op, opname in (('--', 'dash'), ('# ', 'hash')):
+        for hint in (False, True):
+            body0 = r'\+' if hint else r'([^+\r\n][^\r\n]*)?'
+            body = (r'\+[^\r\n]*' if hint else r'([^+\r\n][^\r\n]*)?')
+            fam = C_SINGLE_HINT if hint else C_SINGLE
+            nm = f'{opname} line comment' + (' hint' if hint else '')
+            R.append(dict(id=nm + ' ended by \\n or \\r\\n', spec=re.escape(op) + body + r'(\r\n|\n)', exact=fam))
+            R.append(dict(id=nm + ' ended by \\r', spec=re.escape(op) + body + r'\r', bad_right='\n', exact=fam))
+            R.append(dict(id=nm + ' ended by end of text', spec=re.escape(op) + body, exact=fam, only_end=True))
+    tags = ['', 'a', '_t1'] if tier == 'quick' else ['', 'a', 'B', '_t1', 'É', 'ab', 'a1', '_', 'tag_2', 'Z9_']
+    for t in tags:
+        R.append(dict(id=f'dollar-quoted body ${t}$', dollar=t, exact=LITERAL))
+    return R
+
+
+def dfa_only_suffix(term, atoms):
+    """DFA of words that contain `term` only as a suffix:  Sigma* term  minus  Sigma* term Sigma+"""
+    any_ = r'[\s\S]*'
+    a = rx.DFA.from_pattern(any_ + re.escape(term), atoms)
+    b = rx.DFA.from_pattern(any_ + re.escape(term) + r'[\s\S]+', atoms)
+    return a.minus(b)
+
+
+def first_char_set(spec_pattern):
+    fs, nullable = rx.first_set(rx.parse(spec_pattern, re.UNICODE), re.UNICODE)
+    return fs
 
 
 def check_regions(ctx, rid, quick=True):
-    ctx.ob(rid, 'regions:pending', 'sa/rules_regions.py', 'extent automata for region rules', True, 'implemented with C14')
+    T = get_tables(ctx)
+    tier = 'quick' if quick else ctx.tier
+    nstates = 0
+    for reg in region_table(tier):
+        nstates += check_one_region(ctx, rid, T, reg)
+    ctx.info['extent_product_states'] = ctx.info.get('extent_product_states', 0) + nstates
+
+
+def _expected_rule(T, reg, opener_first):
+    for r in T.lex:
+        if isinstance(r.action, TT) and tuple(r.action) == tuple(reg['exact']):
+            fs, _ = rx.first_set(r.tree)
+            if fs & opener_first:
+                return r
+    return None
+
+
+def check_one_region(ctx, rid, T, reg):
+    kwloc = T.kwmod.relpath
+    rid_key = f'region:{reg["id"]}'
+    n_total = 0
+    if 'dollar' in reg:
+        tag = reg['dollar']
+        opener = f'${tag}$'
+        opener_first = rx.bit('$')
+    else:
+        opener_first = first_char_set(reg['spec'])
+    E = _expected_rule(T, reg, opener_first)
+    if E is None:
+        ctx.ob(rid, rid_key + ':rule', kwloc, f'a rule typed {reg["exact"]!r} starts at the opener of a {reg["id"]}', False,
+               f'no rule of SQL_REGEX with action {reg["exact"]!r} can start with the opener: the region is not lexed as one token of that type')
+        return 0
+    loc = f'{kwloc}:{E.line}'
+    # --- build rule program / spec
+    try:
+        if 'dollar' in reg:
+            tag = reg['dollar']
+            # the tag must be in the language of the tag pattern and the look-behind must hold in the left contexts
+            tree = E.tree
+            grp = next((av for op, av in tree if op is sc.SUBPATTERN and av[0] == 1), None)
+            if grp is None:
+                ctx.ob(rid, rid_key + ':shape', loc, 'dollar rule has the shape (tag)[body]\\1', None, 'group 1 not found')
+                return 0
+            lb = [(op, av) for op, av in grp[3] if op is sc.ASSERT_NOT and av[0] < 0]
+            tagseq = [(op, av) for op, av in grp[3] if not (op in (sc.ASSERT, sc.ASSERT_NOT))]
+            tagprog = rx.Prog(None, rx.LEXFLAGS, tree=_mk(tagseq, tree))
+            lit = [(sc.LITERAL, ord(c)) for c in f'${tag}$']
+            # tag accepted by the opener pattern?
+            atoms0 = rx.atoms_of(tagprog.charsets() + [rx.bit(c) for c in f'${tag}$'])
+            okt = _accepts(tagprog, f'${tag}$')
+            ctx.ob(rid, rid_key + ':tag', loc, f'the opener pattern accepts the tag {opener!r}', okt, 'tag not matched by the opener pattern')
+            if not okt:
+                return 0
+            # left contexts: start, whitespace, ( , = : none may satisfy the look-behind class
+            for (op, av) in lb:
+                cls = 0
+                for o2, a2 in av[1]:
+                    if o2 in rx.CHAR_OPS:
+                        cls |= rx.charset(o2, a2, rx.LEXFLAGS)
+                left = rx.cls(r'\s') | rx.bits_of('(,=')
+                ctx.ob(rid, rid_key + ':left-context', loc, 'the look-behind of the dollar rule holds after whitespace, "(", "," and "="',
+                       not (cls & left), f'look-behind class excludes {rx.chars_of(cls & left, 5)}')
+            rule_prog = rx.Prog(None, rx.LEXFLAGS, tree=E.tree, group_subst={1: lit}, drop_lookbehind=True)
+            # spec: $t$ B $t$ with B.$t$ containing $t$ only as suffix
+            atoms = rx.atoms_of(rule_prog.charsets() + [rx.bit(c) for c in f'${tag}$'] + [rx.bit('\n')])
+            tail = dfa_only_suffix(f'${tag}$', atoms)
+            spec = _concat_literal_dfa(f'${tag}$', tail, atoms)
+            right_ok, allow_end = rx.ALL, True
+        else:
+            rule_prog = rx.Prog(E.pattern, rx.LEXFLAGS)
+            specprog = rx.Prog(reg['spec'], re.UNICODE)
+            bad = rx.cls(reg['bad_right'], re.UNICODE) if reg.get('bad_right') else 0
+            atoms = rx.atoms_of(rule_prog.charsets() + specprog.charsets() + [bad, rx.bit('\n'), rx.bit('\r')])
+            spec = rx.DFA.from_pattern(reg['spec'], atoms, re.UNICODE)
+            right_ok = 0 if reg.get('only_end') else (rx.ALL & ~bad)
+            allow_end = True
+    except rx.Unsupported as e:
+        ctx.ob(rid, rid_key + ':analysable', loc, f'rule #{E.index} {E.pattern!r} analysable by the extent automaton', None, str(e))
+        return 0
+    # --- precedence: earlier rules that can start at the opener must never match on words of the spec
+    for r in T.lex:
+        if r.index >= E.index:
+            break
+        fs, _ = rx.first_set(r.tree)
+        if not (fs & opener_first):
+            continue
+        try:
+            rp = rx.Prog(r.pattern, rx.LEXFLAGS, drop_lookbehind=True)
+            atoms2 = rx.atoms_of([a for a in atoms] + rp.charsets())
+            if 'dollar' in reg:
+                tail2 = dfa_only_suffix(f'${reg["dollar"]}$', atoms2)
+                spec2 = _concat_literal_dfa(f'${reg["dollar"]}$', tail2, atoms2)
+            else:
+                spec2 = rx.DFA.from_pattern(reg['spec'], atoms2, re.UNICODE)
+            viol, n = rx.check_never_matches(rp, spec2, atoms2, right_ok, allow_end)
+            n_total += n
+        except rx.Unsupported as e:
+            ctx.ob(rid, rid_key + f':earlier:{r.pattern}', f'{kwloc}:{r.line}', 'earlier rule analysable', None, str(e))
+            continue
+        ctx.ob(rid, rid_key + f':earlier:{r.pattern}', f'{kwloc}:{r.line}',
+               f'rule #{r.index} {r.pattern!r} (before the {reg["id"]} rule) never matches at the opener of a {reg["id"]}', not viol,
+               (f'it matches on {viol[0][1]!r}' if viol else '') + f': that rule, typed {r.action_src}, wins over rule #{E.index} and the region is not one {reg["exact"]!r} token')
+    # --- extent
+    try:
+        viol, n = rx.check_extent(rule_prog, spec, atoms, right_ok=right_ok, allow_end=allow_end)
+        n_total += n
+    except rx.Unsupported as e:
+        ctx.ob(rid, rid_key + ':extent', loc, 'extent decidable', None, str(e))
+        return n_total
+    ctx.ob(rid, rid_key + ':extent', loc,
+           f'for every {reg["id"]} lexeme and every right context the match of rule #{E.index} {E.pattern!r} ends exactly at the terminator '
+           f'({n} product states)', not viol,
+           (f'{viol[0][0]} on the word {viol[0][1]!r}' if viol else '') + ': the body is cut short or runs past its terminator, so its contents '
+           '(";" included) reach the splitter as separate tokens / swallow following text')
+    return n_total
+
+
+def _mk(seq, like):
+    import re._parser as sp
+    p = sp.SubPattern(like.state, list(seq))
+    return p
+
+
+def _accepts(prog, word):
+    ex = rx.Extent(rx.Prog(None, prog.flags, tree=prog.tree, drop_lookbehind=True)) if prog.has('look') else rx.Extent(prog)
+    raw, prevw = (0,), False
+    W = rx.word_set()
+    for i, ch in enumerate(word):
+        b = rx.bit(ch)
+        lst = ex.closure(raw, prevw, bool(b & W), False, False, i == 0)
+        raw = tuple(pc + 1 for pc in lst if ex.ins[pc][0] == 'char' and ex.ins[pc][1] & b)
+        prevw = bool(b & W)
+        if not raw:
+            return False
+    m, _ = ex.cut(ex.closure(raw, prevw, False, True, True, False))
+    return m
+
+
+def _concat_literal_dfa(lit, tail, atoms):
+    """DFA for  lit . L(tail)"""
+    n = len(tail.delta)
+    dead = n + len(lit)
+    delta = [list(row) for row in tail.delta]
+    for i, ch in enumerate(lit):
+        row = []
+        b = rx.bit(ch)
+        for a in atoms:
+            if a & b and a == b or (a & b and (a & ~b) == 0):
+                row.append(n + i + 1 if i + 1 < len(lit) else tail.start)
+            elif a & b:
+                # atom not fine enough
+                raise rx.Unsupported('atoms do not separate the tag characters')
+            else:
+                row.append(dead)
+        delta.append(row)
+    delta.append([dead] * len(atoms))
+    return rx.DFA(atoms, delta, n, set(tail.accept))
+
+
+# ---------------------------------------------------------------------------
+# R14.6 quoted sub-pattern agreement
+
+QUOTES = {"'": ('single-quoted string', STR_SINGLE), '"': ('double-quoted name', STR_SYMBOL), '`': ('backtick name', NAME)}
+
+
+def quoted_subpatterns(tree):
+    """(quote char, [LITERAL q, REPEAT(body), LITERAL q] sub-sequence) found anywhere in the tree"""
+    out = []
+
+    def rec(seq):
+        items = list(seq)
+        for i in range(len(items) - 2):
+            (o1, a1), (o2, a2), (o3, a3) = items[i], items[i + 1], items[i + 2]
+            if o1 is sc.LITERAL and o3 is sc.LITERAL and a1 == a3 and chr(a1) in QUOTES and o2 in (sc.MAX_REPEAT, sc.MIN_REPEAT):
+                out.append((chr(a1), items[i:i + 3], len(items) == 3))
+        for op, av in items:
+            if op is sc.BRANCH:
+                for a in av[1]:
+                    rec(a)
+            elif op is sc.SUBPATTERN:
+                rec(av[3])
+            elif op in (sc.MAX_REPEAT, sc.MIN_REPEAT):
+                rec(av[2])
+    rec(tree)
+    return out
 
 
 def check_quote_agreement(ctx, rid):
-    pass
+    """every rule that embeds a quoted region q body q agrees with the dedicated rule of that quote kind:
+    same language, and the same leftmost-first extents on the specification language."""
+    T = get_tables(ctx)
+    kwloc = T.kwmod.relpath
+    ref = {}
+    for q, (name, tt) in QUOTES.items():
+        for r in T.lex:
+            if isinstance(r.action, TT) and tuple(r.action) == tuple(tt):
+                subs = [s for s in quoted_subpatterns(r.tree) if s[0] == q and s[2]]
+                if subs:
+                    ref[q] = (r, subs[0][1])
+                    break
+    n = 0
+    for r in T.lex:
+        for q, seq, whole in quoted_subpatterns(r.tree):
+            if q not in ref or ref[q][0] is r:
+                continue
+            n += 1
+            R, rseq = ref[q]
+            loc = f'{kwloc}:{r.line}'
+            key = f'quoted:{q}:{r.pattern}'
+            try:
+                p1 = rx.Prog(None, rx.LEXFLAGS, tree=_mk(seq, r.tree))
+                p2 = rx.Prog(None, rx.LEXFLAGS, tree=_mk(rseq, R.tree))
+                atoms = rx.atoms_of(p1.charsets() + p2.charsets())
+                d1 = _dfa_of_prog(p1, atoms)
+                d2 = _dfa_of_prog(p2, atoms)
+                w1 = d1.minus(d2).witness()
+                w2 = d2.minus(d1).witness()
+            except rx.Unsupported as e:
+                ctx.ob(rid, key, loc, 'embedded quoted region analysable', None, str(e))
+                continue
+            ok = w1 is None and w2 is None
+            ctx.ob(rid, key, loc,
+                   f'the {QUOTES[q][0]} embedded in rule #{r.index} {r.pattern!r} has the same lexeme language as the dedicated rule #{R.index}', ok,
+                   f'languages differ: {w1!r} only in rule #{r.index}, {w2!r} only in rule #{R.index} {R.pattern!r}: a literal ends at a different place '
+                   f'when it is lexed through rule #{r.index} (escapes / doubled quotes handled differently)')
+    ctx.info['embedded_quoted_regions'] = n
+    if n == 0:
+        ctx.ob(rid, 'quoted:none', kwloc, 'no rule other than the dedicated ones embeds a quoted region', True)
+
+
+def _dfa_of_prog(prog, atoms):
+    ins = prog.ins
+
+    def clo(pcs):
+        out, seen, st = set(), set(), list(pcs)
+        while st:
+            pc = st.pop()
+            if pc in seen:
+                continue
+            seen.add(pc)
+            i = ins[pc]
+            if i[0] == 'split':
+                st += [i[1], i[2]]
+            elif i[0] == 'jmp':
+                st.append(i[1])
+            elif i[0] in ('at', 'look'):
+                st.append(pc + 1)
+            else:
+                out.add(pc)
+        return frozenset(out)
+    start = clo([0])
+    ids = {start: 0}
+    delta, accept, work = [], set(), [start]
+    while work:
+        s = work.pop()
+        while len(delta) <= ids[s]:
+            delta.append(None)
+        if any(ins[pc][0] == 'match' for pc in s):
+            accept.add(ids[s])
+        row = []
+        for a in atoms:
+            t = clo([pc + 1 for pc in s if ins[pc][0] == 'char' and ins[pc][1] & a])
+            if t not in ids:
+                ids[t] = len(ids)
+                work.append(t)
+            row.append(ids[t])
+        delta[ids[s]] = row
+    return rx.DFA(atoms, delta, 0, accept)
